@@ -502,7 +502,7 @@ func (b *Backend) act(c net.Conn, req *Request, bh Behaviour) (reuse bool) {
 		body = bytes.Join(bh.Steps, nil)
 	}
 	var hdr bytes.Buffer
-	fmt.Fprintf(&hdr, "HTTP/1.1 %d %s\r\n", bh.Status, statusText(bh.Status))
+	fmt.Fprintf(&hdr, "HTTP/1.1 %03d %s\r\n", bh.Status, statusText(bh.Status))
 	for _, h := range bh.Headers {
 		fmt.Fprintf(&hdr, "%s: %s\r\n", h[0], h[1])
 	}
